@@ -13,12 +13,12 @@ trap cleanup EXIT
 cp $SRC/demo_test.go $WT/$PKG/zz_seed_demo_test.go
 cd $WT
 echo "== demo on clean tree"
-go test -vet=off -count=1 "$@" ./$PKG/ > /tmp/seedchk_clean.log 2>&1; RC_CLEAN=$?
+go test -vet=off -count=1 ./$PKG/ "$@" > /tmp/seedchk_clean.log 2>&1; RC_CLEAN=$?
 tail -3 /tmp/seedchk_clean.log
 git apply $SRC/patch.diff || { echo "PATCH DOES NOT APPLY"; exit 1; }
 go build ./server/... ./pkg/... ./client/... 2>&1 | grep -v "dashboard\|^#" | head -5
 echo "== demo on patched tree"
-go test -vet=off -count=1 "$@" ./$PKG/ > /tmp/seedchk_patched.log 2>&1; RC_PATCHED=$?
+go test -vet=off -count=1 ./$PKG/ "$@" > /tmp/seedchk_patched.log 2>&1; RC_PATCHED=$?
 tail -5 /tmp/seedchk_patched.log
 rm $WT/$PKG/zz_seed_demo_test.go
 # existing tests of touched packages (baseline packages only)
